@@ -9,7 +9,7 @@ REF = "the independent reference codec (refmodel: self-tested by decode(encode(v
 
 C = {
  "C01": ("bounded-exhaustive header/length sweep + rapid structured-hostile byte generation + native coverage-guided fuzzing (thorough), oracle: returns, no panic, allocated bytes and wall time bounded",
-         "Exploration: every one of the 24 decode entry points is driven directly (not only through rtcp.Unmarshal) with (a) an exhaustive sweep over total length x first octet x length field x fill patterns, (b) generated hostile inputs built from reference encodings with directed mutations of length/count/status-count fields, including the adaptive TWCC recipe that walks the 16-bit status counter to its wrap point and frames up to 256 KiB, (c) thorough: native go fuzzing with a seed corpus. The oracle is in the target: recovered panic, allocated bytes > 8 MiB + 128 x len, or wall time > 5 s is a violation.",
+         "Exploration: every one of the 24 decode entry points is driven directly (not only through rtcp.Unmarshal) with (a) an exhaustive sweep over total length x first octet x length field x fill patterns, (b) generated hostile inputs built from reference encodings with directed mutations of length/count/status-count fields, including the adaptive TWCC recipe that walks the 16-bit status counter to its wrap point and frames up to 256 KiB, (c) a deterministic field sweep (every 16-bit position and octet of a minimal packet of every type set to hostile constants, decoded alone and as datagrams of repeated copies), (d) decoding into receivers that were used before, (e) thorough: native go fuzzing with a seed corpus. The oracle is in the target: recovered panic, allocated bytes > 8 MiB + 128 x len, or wall time > 5 s is a violation.",
          "Resource bounds are this check's reading of 'a fixed few MiB plus a small multiple of the input size' (constants justified in DESIGN.md C01); 'never hangs' is decided as 'returns within the bound on every generated input'."),
  "C02": ("rapid generated values of every type in the well-formed domain D, round-trip oracle through both decoders + list round trip + re-marshal byte equality",
          "Exploration: D-values of all 16 types (boundary-biased fields, lists at 0/1/max, text lengths mod 4, sequence wrap, TWCC chunkings ending at the packet end, compound packets) are marshalled and decoded through the type's own decoder and through rtcp.Unmarshal (which must return the same concrete type); lists go through rtcp.Marshal/Unmarshal; decoded packets must re-marshal to identical bytes. Expected values apply exactly the three documented quantisations, computed by the reference, not by pion.",
@@ -18,13 +18,13 @@ C = {
          "Exploration: every D-value is encoded by pion and by refmodel (written from the RFC layouts, int arithmetic, no shared code); outputs must agree on every octet the specifications define. This sees layout errors made symmetrically in encoder and decoder, which no round trip can.",
          REF),
  "C04": ("rapid generated D-values x RFC-permitted variant encodings produced by the reference encoder (alternative TWCC chunkings, unnormalised REMB, padded APP, non-zero reserved bits, unknown XR blocks, stray CCFB bits, BYE reason forms) + count-inflated SR/RR/SDES/BYE, oracle: decoded fields == model / must-reject",
-         "Exploration: the decoder is fed encodings its own encoder never produces, built by the reference from a model value, through both decode paths; every semantic field must equal the model. Count-inflated headers must be rejected.",
-         "Variants are restricted to the forms the property statement lists; " + REF),
+         "Exploration: the decoder is fed encodings its own encoder never produces, built by the reference from a model value, through both decode paths; every semantic field must equal the model. Variants: TWCC chunkings, unnormalised REMB, padded APP, RFC 3550 padding on every other type, reserved bits, unknown XR blocks, stray CCFB bits, BYE reason forms, frames of 64 KiB and more. Count-inflated headers must be rejected.",
+         "Variants are RFC-permitted forms only (the statement's list plus RFC 3550 padding on any packet); " + REF),
  "C05": ("rapid generated values incl. deliberately unaligned variable-length parts, intrinsic oracle: len == MarshalSize, multiple of 4, header fields, Header()/Len() accessors, exactly one frame under an independent splitter",
          "Exploration: every value for which Marshal succeeds (D plus SR/RR extensions of every length mod 4, odd XR chunk counts, unknown XR bodies of any length, odd CCFB/TWCC element counts) is checked for size/alignment/header consistency and that an independent frame splitter sees exactly one frame.",
          "PT/FMT table from the RFCs (refmodel.PTFMT); rapid v1.3.0; Go toolchain."),
  "C06": ("rapid generated frame sequences with fault injection (truncation, surplus octets, overlong header, malformed frame), metamorphic oracle: Unmarshal(a||b) == Unmarshal(a) ++ Unmarshal(b), locality per frame, error+nil on any fault",
-         "Exploration: sequences of 1..12 frames of all types (reference encodings, pion encodings, raw frames) are concatenated; each returned packet must equal the decode of its frame alone, every split point must commute with concatenation, and any injected fault or an empty datagram must yield an error and no packets. Frames are delimited by the reference splitter, not by pion.",
+         "Exploration: sequences of 1..12 frames of all types (reference encodings, pion encodings, raw frames) are concatenated; each returned packet must equal the decode of its frame alone, every split point must commute with concatenation, and any injected fault or an empty datagram must yield an error and no packets; frames that are well-formed by construction must be accepted; structurally inconsistent frames (REMB with surplus words, XR with an over-long block, CCFB announcing more metric blocks than fit) must be rejected alone and inside a datagram. Frames are delimited by the reference splitter, not by pion.",
          REF),
  "C07": ("exhaustive enumeration of all 256 PT x 32 FMT header cells + all ordered pairs of packet types with generated bodies, oracle: reference dispatch table / must-reject",
          "Exploration, exhaustive over the 8192 (PT, FMT) cells and over the 14x15 ordered type pairs (bodies sampled): dynamic type of the returned packet equals the table, unknown cells come back as RawPacket with verbatim bytes, foreign well-formed packets are rejected by each typed decoder, own output is dispatched back to its own type.",
@@ -60,7 +60,7 @@ C = {
          "Exploration: String() is called under recover and fmt verbs are scanned for fmt's swallowed-panic marker on every packet returned by Unmarshal over generated accepted inputs, on constructed values of every type (empty/maximal lists, Bitrate up to MaxFloat32/Inf/NaN, unknown enums), on all 256 values of each enum type and all 2^16 XR chunks, on compounds mixing all types, and on all decodable REMB (exp, mantissa) pairs.",
          "fmt's behaviour of converting panics in String methods into '%!v(PANIC=' text (checked by a self-test)."),
  "C18": ("rapid state-machine histories with deep snapshots (purity) + generated concurrent scripts under the Go race detector with sequential/concurrent differential results",
-         "Exploration: (A) model-based histories of Marshal/MarshalSize/DestinationSSRC/String/Header/Unmarshal/Validate/CNAME over a pool of packets and buffers with deep snapshots compared after every step and every earlier result re-compared (exposes scratch buffers, memoisation, in-place normalisation); (B) the same operations from 4..32 goroutines on distinct and shared packets in a -race build: any race report (exit 66) or any result differing from the sequential run is a violation.",
+         "Exploration: (A) model-based histories of Marshal/MarshalSize/DestinationSSRC/String/Header/Unmarshal/Validate/CNAME over a pool of packets and buffers with deep snapshots compared after every step and every earlier result re-compared (exposes scratch buffers, memoisation, in-place normalisation); (A2) decoding B into a receiver that decoded A before must equal a fresh decode of B; (B) the same operations from 4..32 goroutines on distinct and shared packets in a -race build: any race report (exit 66) or any result differing from the sequential run is a violation.",
          "(B) does not enumerate interleavings: it relies on the race detector being a happens-before detector, so unsynchronised conflicting accesses are reported whatever the schedule; a bug hidden behind correct synchronisation and needing a specific interleaving is out of reach (DESIGN.md C18)."),
 }
 
